@@ -13,9 +13,9 @@ import c04_w3 as W
 
 PROP = "C04"
 LEVEL = "proof"
-GEN_UNITS = ["GenUtils3"]      # Props/C04Gen.v states one mode of the sparse region read over the GENERATED tt_renumberdim
-COQ_TARGETS = ["Props/C04.vo", "Props/C04Gen.vo", "Model/C04Harness.vo", "Model/C04Extra.vo", "Model/Harness.vo"]
-THEOREM_FILES = ["Props/C04.v", "Props/C04Gen.v"]
+GEN_UNITS = ["GenUtils3", "GenMethods"]      # Props/C04Gen.v states one mode of the sparse region read over the GENERATED tt_renumberdim
+COQ_TARGETS = ["Props/C04.vo", "Props/C04Gen.vo", "Model/C04Harness.vo", "Model/C04Extra.vo", "Model/Harness.vo", "Props/W3C04.vo", "Props/W3Methods.vo"]
+THEOREM_FILES = ["Props/C04.v", "Props/C04Gen.v", "Props/W3C04.v", "Props/W3Methods.v"]
 COQ_IMPORTS = ("From Coq Require Import List ZArith Bool.\n"
                "From PV Require Import Base.Index Np.Array Model.Sparse Model.Harness Model.C04Model Model.C04Harness Model.C04Extra.\n")
 RULE = ("a case is a HISTORY of 1-12 reads/writes applied to a dense and a sparse tensor from the same start state "
